@@ -7,7 +7,7 @@
 From Coq Require Import List NArith Bool.
 From Verif.Common Require Import Packet PolicyRef Labels.
 From Verif.C05 Require Import Model Spec ProofsFilter ProofsProfiles ProofsStep ProofsVerdict ProofsMain ProofsOracle
-  ProofsPolicies ProofsIndex ProofsPolStep ProofsPolMain ProofsNoPanic.
+  ProofsPolicies ProofsIndex ProofsPolStep ProofsPolMain ProofsNoPanic ProofsTrace.
 Import ListNotations.
 Open Scope N_scope.
 
@@ -128,6 +128,15 @@ Theorem c05_no_panic : forall (validate : value -> bool) h,
   forallb no_panic (run validate st0 h) = true.
 Proof. exact no_panic_from_start. Qed.
 Print Assumptions c05_no_panic.
+
+(* The COMPLETE oracle that the correspondence run applies to the implementation's trace (ok_case: after every
+   single update - filter forwards whole-or-nil, no panic, profiles fail closed, policies exact) accepts the
+   model's own trace of every well-typed history, for every validator and every iteration order. *)
+Theorem c05_model_meets_spec : forall (validate : value -> bool) h,
+  (forall i, In i h -> wt (i_key i) (i_val i)) ->
+  ok_case {| c_graph := false; c_ops := trace_of validate st0 h |} = true.
+Proof. exact model_meets_spec. Qed.
+Print Assumptions c05_model_meets_spec.
 
 (* Non-vacuity for the policy theorems: policy 5 (selector a == "x", tier 9 which does not exist) becomes active
    when endpoint 0 gets the label, is replaced by an invalid version (validate rejects tier 99) -> removed from the
